@@ -210,8 +210,25 @@ fn history_with(ch: &mut Choices, case: &mut Case, base: i32, max_ops: u32) -> R
                     let j = ch.draw(i as u32 + 1) as usize;
                     perm.swap(i, j);
                 }
-                let other: CompactCalendar = perm.iter().copied().collect();
-                hist.push_str("eq(permutation); ");
+                // collected through iterators of different shapes (exact size, unknown lower bound, flattened, chained):
+                // `collect()` is a sequence of insertions whatever the iterator says about its length
+                let shape = ch.draw(6);
+                let other: CompactCalendar = match shape {
+                    0 => perm.iter().copied().collect(),
+                    1 => perm.iter().copied().filter(|_| true).collect(),
+                    2 => {
+                        let mut rest = perm.clone();
+                        rest.reverse();
+                        std::iter::from_fn(|| rest.pop()).collect()
+                    }
+                    3 => perm.chunks(2).flat_map(|c| c.to_vec()).collect(),
+                    4 => perm.iter().copied().take_while(|_| true).chain(std::iter::empty()).collect(),
+                    _ => perm.iter().copied().scan((), |_, d| Some(d)).collect(),
+                };
+                hist.push_str(&format!("eq(permutation collected through iterator shape {shape}); "));
+                if other.count() as usize != set.len() || set.iter().any(|d| !other.contains(*d)) {
+                    return Err(format!("calendar collected from the same dates through iterator shape {shape} holds {} dates instead of {}; history: {hist}", other.count(), set.len()));
+                }
                 if other != cal {
                     return Err(format!("calendar built from a permutation of the same insertions is not equal; history: {hist} permutation: {perm:?}"));
                 }
@@ -219,6 +236,9 @@ fn history_with(ch: &mut Choices, case: &mut Case, base: i32, max_ops: u32) -> R
                     let smaller: CompactCalendar = set.iter().copied().filter(|d| *d != missing).collect();
                     if smaller == cal {
                         return Err(format!("calendar without {missing} compares equal; history: {hist}"));
+                    }
+                    if smaller.count() as usize != set.len() - 1 || smaller.contains(missing) {
+                        return Err(format!("calendar collected from a filtered iterator (all dates but {missing}) holds {} dates instead of {}; history: {hist}", smaller.count(), set.len() - 1));
                     }
                 }
                 case.label("eq_permutation");
